@@ -68,6 +68,9 @@ def corpus(tier):
                 yield space.rename(d, {kk: v for kk, v in ESC.items() if "." not in v})
             if k % 16 == 0:
                 yield space.to_desc(I, gates, outputs="all")
+            if k % 24 == 12:
+                # very long names (flattened hierarchies)
+                yield space.rename(d, {x[0]: f"u_top_u_core_{x[0]}_" + "stage_" * 14 + x[0] for x in d["nodes"]})
             if k % 24 == 0:
                 # escaped identifiers may contain any printable non-blank character
                 yield space.rename(d, {"a": "\\a,b", "g0": "\\d(0)", "g1": "\\x;y"})
